@@ -1672,8 +1672,11 @@ int QSexact_solver (mpq_QSdata * p_mpq,
 	/* if we reach this point, then we have to keep going, we use the previous
 	 * basis ONLY if the previous precision think that it has the optimal
 	 * solution, otherwise we start from scratch. */
-	precision = 128;
 	MPF_PRECISION:
+	/* every way into the extended precision levels starts with 128 bits: the
+	 * jumps to this label used to start with whatever precision the previous
+	 * call had ended with, half as much again for each such call */
+	precision = 128;
 	dbl_QSfree_prob (p_dbl);
 	p_dbl = 0;
 	/* try with multiple precision floating points */
